@@ -165,6 +165,27 @@ func checkC18(c *Ctx) {
 		}
 	}
 
+	// the handling of client input is everything that runs on a goroutine fed by the decoder: the functions that call
+	// Decode and their callers up to the goroutine roots (the decoding may sit in a helper: readConnect)
+	{
+		seenR := map[*ssa.Function]bool{}
+		for _, r := range roots {
+			seenR[r] = true
+		}
+		for i := 0; i < len(roots) && i < 200; i++ {
+			for _, site := range c.P.StaticCallers(roots[i]) {
+				if _, isGo := site.(*ssa.Go); isGo {
+					continue
+				}
+				up := site.Parent()
+				if up != nil && !seenR[up] && up.Pkg != nil && c.P.IsModPkg(up.Pkg.Pkg) {
+					seenR[up] = true
+					roots = append(roots, up)
+				}
+			}
+		}
+	}
+
 	// R2
 	ru2 := c.R.Rule("C18-R2", "no process-terminating call (panic, os.Exit, log.Fatal*, zap Fatal/Panic) is reachable by ordinary calls from the functions that handle client input, except the reviewed messages.mustEncode / mustDecode", "E8 reachability (static calls, closures, interface calls resolved over module implementations)", 1)
 	reach := c.P.Reach(roots, func(from *ssa.Function, cl *core.Call, to *ssa.Function) bool {
